@@ -15,6 +15,9 @@ type CmdWrapperPty struct {
 }
 
 func (c *CmdWrapperPty) Start() (err error) {
+	if f := verifFake(c.CmdWrapper); f != nil {
+		return verifPtyStart(c, f)
+	}
 	if c.ptmx != nil {
 		return nil
 	}
@@ -31,11 +34,17 @@ func (c *CmdWrapperPty) Start() (err error) {
 }
 
 func (c *CmdWrapperPty) Wait() error {
+	if f := verifFake(c.CmdWrapper); f != nil {
+		return f.Wait()
+	}
 	defer c.ptmx.Close()
 	return c.cmd.Wait()
 }
 
 func (c *CmdWrapperPty) StdoutPipe() (io.ReadCloser, error) {
+	if f := verifFake(c.CmdWrapper); f != nil {
+		return verifPtyStdout(c, f)
+	}
 	if c.ptmx == nil {
 		err := c.Start()
 		if err != nil {
